@@ -177,8 +177,15 @@ class Ctx:
     def harness(self, name, **kw):
         return build.build_harness(name, **kw)
 
-    def run_lines(self, exe, script, timeout=600, env=None, args=()):
-        """run a line-protocol program on a script -> (rc, stdout lines, stderr tail)"""
+    def run_lines(self, exe, script, timeout=None, env=None, args=()):
+        """run a line-protocol program on a script -> (rc, stdout lines, stderr tail).
+        A run that exceeds its time limit is a result (rc 124, reported as a hang by the callers);
+        after two of them the limit for the remaining runs of this check drops to 20 s, so a change
+        that makes the code spin costs minutes, not hours."""
+        if timeout is None:
+            timeout = 180 if getattr(self, "tier", "quick") == "quick" else 600
+        if getattr(self, "_timeouts", 0) >= 2:
+            timeout = min(timeout, 20)
         e = dict(os.environ)
         e.setdefault("ASAN_OPTIONS", "detect_leaks=1:abort_on_error=0:allocator_may_return_null=1")
         e.setdefault("UBSAN_OPTIONS", "print_stacktrace=1")
@@ -191,6 +198,7 @@ class Ctx:
             return r.returncode, r.stdout.splitlines(), r.stderr[-3000:]
         except subprocess.TimeoutExpired as ex:
             so = ex.stdout.decode(errors="replace") if isinstance(ex.stdout, bytes) else (ex.stdout or "")
+            self._timeouts = getattr(self, "_timeouts", 0) + 1
             return 124, so.splitlines(), "TIMEOUT after %ss" % timeout
 
 
